@@ -58,6 +58,9 @@ def inject(rng, rows, i, kind, unit):
 
 KINDS = ["no_bullet", "empty_text", "not_multiple", "mixed", "jump", "no_root"]
 LOCAL_KINDS = ("no_bullet", "empty_text", "no_root")
+# in massive mode the unit is learnt from whichever block is parsed first: a jump / non-multiple is still an error on every
+# schedule (some row fails), but WHICH row is reported depends on the schedule
+MASSIVE_KINDS = LOCAL_KINDS + ("jump", "not_multiple")
 
 SIMPLE_OPS = ["out d 0 0", "out d 0 1", "out j 0 0", "out j 0 1", "out y 0 0", "out t 0 1"]
 MASSIVE_OPS = ["mout d 0 0", "mout j 0 0"]
@@ -104,7 +107,9 @@ def run(ck, rng):
                 if new is None:
                     continue
                 nl = [(r, False, None) for r in new]
-                docs.append((join_lines(nl, rng.random() < 0.8), kind, uniform and kind in LOCAL_KINDS))
+                docs.append((join_lines(nl, rng.random() < 0.8), kind, uniform and kind in MASSIVE_KINDS))
+    for items in wide_forests(12):
+        docs.append((spell(items, plain_spelling(items)), "wellformed", True))
     for d in malformed_stream(rng, 300 if ck.tier == "quick" else 6000):
         docs.append((d, "mutation", False))
     verdicts = run_model(["classdoc " + hx(d) for d, _, _ in docs])
@@ -136,7 +141,7 @@ def run(ck, rng):
         if vt[0] == "bad":
             if r == "ok":
                 bad = "malformed line %s (%s) but nil returned" % (vt[1], vt[2])
-            elif r.startswith("err:format:") and r.split(":")[2] != vt[3]:
+            elif r.startswith("err:format:") and r.split(":")[2] != vt[3] and not (op.startswith("m") and vt[2] in ("jump", "not_multiple")):
                 bad = "format error names row %s, first malformed row is %s" % (r.split(":")[2], vt[3])
             elif not r.startswith("err:"):
                 bad = "abnormal: " + r
